@@ -4,6 +4,7 @@ Every check calls lib(config) / executor(...) first; the cache key is a hash ove
 repository sources, the harness sources and the flags, so an edited /repo is always
 rebuilt.  Stale build directories of the same config are removed.
 """
+import time
 import os, sys, hashlib, subprocess, glob, shutil, fcntl, concurrent.futures as cf
 
 REPO = os.environ.get("VERIF_REPO", "/repo")
@@ -76,7 +77,8 @@ def lib(config):
             # copies via VERIF_REPO must not delete each other's builds); drop the rest
             olds = sorted(glob.glob(os.path.join(BUILD, config + "-*")), key=lambda x: os.path.getmtime(x), reverse=True)
             for old in olds[10:]:
-                shutil.rmtree(old, ignore_errors=True)
+                if time.time() - os.path.getmtime(old) > 4 * 3600:     # never a tree a concurrent run may still be using
+                    shutil.rmtree(old, ignore_errors=True)
             tmp = d + ".tmp%d" % os.getpid()
             os.makedirs(tmp, exist_ok=True)
             objs = []
